@@ -257,16 +257,23 @@ def stream_bindings(ctx, impl, drv):
         ctx.dist("get_bindings:" + ("exc" if "exc" in real else "ok"))
         if real != m:
             ctx.cov["disagreements_checked"] += 1
-            ctx.broken.append("corr:get_bindings")
-            ctx.notes.append({"stream": "get_bindings", "input": [label, caps], "impl": real, "model": m})
+            unordered = [b for b in real.get("r", []) if b[1] > b[2]]
+            if unordered:  # the property itself (C02_binding_ordered): start <= end
+                ctx.violations.append({"what": "get_bindings yields a span with start > end",
+                                       "signature": None,
+                                       "replay": {"kind": "binding", "label": label, "captures": caps, "impl": real, "model": m,
+                                                  "spec": "start <= end (the ordered pair of the captured lines)"}})
+            else:
+                ctx.broken.append("corr:get_bindings")
+                ctx.notes.append({"stream": "get_bindings", "input": [label, caps], "impl": real, "model": m})
             break
         if "r" in real:  # the theorem's reading: start / end are the lines of the first / last (or paired) POS
             first, last = caps["POS"][0].split(":")[0], caps["POS"][-1].split(":")[0]
             paired = bool(caps.get("SUFFIX")) and len(caps["SUFFIX"]) == len(caps["POS"])
             for k, (nm, s, e, path) in enumerate(real["r"]):
-                exp = (int(caps["POS"][k].split(":")[0]),) * 2 if paired else (int(first), int(last))
+                exp = (int(caps["POS"][k].split(":")[0]),) * 2 if paired else tuple(sorted((int(first), int(last))))
                 if (s, e) != exp:
-                    ctx.violations.append({"what": "get_bindings: span is not (line of first POS, line of last POS)",
+                    ctx.violations.append({"what": "get_bindings: span is not the ordered pair of the lines of the first and last POS",
                                            "signature": None,
                                            "replay": {"kind": "binding", "label": label, "captures": caps, "impl": real, "model": m,
                                                       "spec": list(exp)}})
